@@ -226,6 +226,9 @@ FIXED = [
      "grids": [[1.0, 2.0, 3.0, 5.0, 8.0, 13.0], [7.0, 1.0, 4.0, 9.0, 2.0, 6.0]],
      "calls": [{"tag": "node", "idx": [2, 0], "x": [1.0, 0.0], "kw": [["a", 1.0], ["b", 0.0]],
                 "kw_shuffled": [["zz", 3.0], ["b", 0.0], ["a", 1.0]]},
+               # the node at which EVERY parameter is exactly zero
+               {"tag": "node", "idx": [0, 0], "x": [0.0, 0.0], "kw": [["a", 0.0], ["b", 0.0]],
+                "kw_shuffled": [["b", 0.0], ["a", 0.0], ["zz", 3.0]]},
                {"tag": "inside", "x": [0.25, 0.5], "kw": [["a", 0.25], ["b", 0.5]],
                 "kw_shuffled": [["b", 0.5], ["a", 0.25]]},
                {"tag": "missing", "drop": "b", "kw": [["a", 0.5]]},
@@ -234,6 +237,7 @@ FIXED = [
      "grids": [[1.0, 2.0, 5.0], [3.0, 1.0, 0.5]],
      "calls": [{"tag": "node", "idx": [1], "x": [1.0], "kw": [["a_ani", 1.0]],
                 "kw_shuffled": [["q", 1.5], ["a_ani", 1.0]]},
+               {"tag": "node", "idx": [0], "x": [0.0], "kw": [["a_ani", 0.0]], "kw_shuffled": [["q", 1.5], ["a_ani", 0.0]]},
                {"tag": "node", "idx": [2], "x": [3.0], "kw": [["a_ani", 3.0]], "kw_shuffled": [["a_ani", 3.0]]},
                {"tag": "inside", "x": [2.0], "kw": [["a_ani", 2.0]], "kw_shuffled": [["a_ani", 2.0], ["b", 0.0]]},
                {"tag": "missing", "drop": "a_ani", "kw": [["A_ANI", 1.0]]},
